@@ -76,7 +76,7 @@ def frameSetObs (fs : FrameSet) (qi qv : List Int) : Obs :=
     ("idx", showInts (qv.map fs.index)),
     ("has", ",".intercalate (qv.map fun v => showBool (fs.hasFrame v))) ]
 
-def dispatch : List String → Obs × Option Obs
+def dispatchRanges : List String → Option (Obs × Option Obs)
   -- single InclusiveRange
   | ["rng", s, e, st, qi, qv] =>
     let (s, e, st) := (int! s, int! e, int! st)
@@ -94,7 +94,7 @@ def dispatch : List String → Obs × Option Obs
         let L := Spec.enum s e r.step.natAbs
         some ((obsList L qi qv).filter fun (k, _) => k != "start")
       else none
-    (m, sp)
+    some (m, sp)
   -- AppendUnique history on an empty InclusiveRanges
   | ["rngs", h, qi, qv] =>
     let h := parseHist h
@@ -104,7 +104,7 @@ def dispatch : List String → Obs × Option Obs
       ("reparse", showExcept (fun fs => summarize fs.frames) (FrameSet.parse bl.str))]
     let L := Spec.appendHist [] h
     let sp := obsList L qi qv ++ (if L.isEmpty then [] else [("reparse", summarize L)])
-    (m, some sp)
+    some (m, some sp)
   -- NewFrameSet(text) with the AST the text was rendered from (or "-")
   | ["fs.parse", txt, ast, qi, qv] =>
     let txt := unhex txt
@@ -121,7 +121,7 @@ def dispatch : List String → Obs × Option Obs
         if cs.all Spec.Comp.ok then
           some ([("err", "ok")] ++ obsList (Spec.denote cs) qi qv)
         else some [("err", Err.zeroStep.toString)]
-    (m, sp)
-  | _ => ([("bad-op", "1")], none)
+    some (m, sp)
+  | _ => none
 
 end Gfs.Ops
